@@ -128,6 +128,8 @@ class CliEnv(Env):
         """Run `alpenhorn <args>`; returns (exit_code, output, exception)."""
         from click.testing import CliRunner
         from alpenhorn.cli import entry
+        import fileinput
+        fileinput.close()          # module-global state of the previous in-process invocation
         self.reset_globals()
         verif_dbext.reset_counters()
         verif_dbext.CTL["fault_at"] = set(faults or ())
